@@ -18,7 +18,9 @@ Sources == {"path", "stream"}
 IndexKinds == {"none", "index", "mismatch", "indexonly"}
 \* stage at which reading the input raises: "meta" faults raise while metadata is read, "data" faults at the
 \* first read of raw data
-Faults == {"none", "bad_tag", "bad_tag_second", "unknown_type", "type_change", "same_unseen"}
+\* "interrupt": an exception that is not an Exception (KeyboardInterrupt: the user presses Ctrl-C) arrives while the
+\* library reads the metadata - "returns or raises" covers it like any other
+Faults == {"none", "bad_tag", "bad_tag_second", "unknown_type", "type_change", "same_unseen", "interrupt"}
 \* with an index file beside the data, metadata comes from the index: a wrong tag in the data file is then met
 \* only when raw data is read (segment start check)
 TagFault(c) == c.fault \in {"bad_tag", "bad_tag_second"}
@@ -29,6 +31,7 @@ ValidCfg(c) ==
   /\ c.source = "stream" => c.index \in {"none", "indexonly"}     \* an index beside the data needs a path
   /\ c.index = "mismatch" => c.fault = "none"
   /\ c.index = "indexonly" => c.fault \in {"none", "unknown_type"}
+  /\ c.fault = "interrupt" => c.index \in {"none", "index"}
 Cfgs == {c \in [source : Sources, index : IndexKinds, fault : Faults] : ValidCfg(c)}
 
 \* descriptors the library opens in the constructor for this input
@@ -105,8 +108,14 @@ WriterWith(bodyRaises) ==
   /\ api' = "written" /\ libfds' = {}
   /\ UNCHANGED <<cfg, callerClosed>>
 
+\* write_segment on a writer whose block was left: refused, and nothing is (re)opened
+WriterLateWrite ==
+  /\ CanAct /\ api = "written"
+  /\ Act([op |-> "late_write", raises |-> TRUE, fds |-> {}])
+  /\ UNCHANGED <<cfg, api, libfds, callerClosed>>
+
 Next == \/ ReadCall("read") \/ ReadCall("read_metadata") \/ OpenCall \/ ReadData \/ Close("close") \/ Close("exit_with")
-        \/ ReadAfterClose \/ ReadEager \/ ReadMetaOnly \/ WriterWith(FALSE) \/ WriterWith(TRUE)
+        \/ ReadAfterClose \/ ReadEager \/ ReadMetaOnly \/ WriterWith(FALSE) \/ WriterWith(TRUE) \/ WriterLateWrite
 Spec == Init /\ [][Next]_vars
 
 (* ------------------------------ properties ------------------------------ *)
